@@ -59,6 +59,25 @@ fn idat_shape_x<const L1: usize, const L2: usize, const T: usize, const RECREATE
     let r = parse_idat(&data[..n], 0);
     let ok = r.is_ok();
     kani::cover!(!ok, "rejected (CRC mismatch or too short)");
+    // acceptance is determined by the checksums and the payload size (C06: a well-formed run must be found)
+    if T < 12 {
+        let crc_of = |from: usize, l: usize| -> u32 {
+            let mut h = crc32fast::Hasher::new();
+            h.update(b"IDAT");
+            h.update(&data[from..from + l]);
+            h.finalize()
+        };
+        let crc1_ok = crc_of(8, L1) == u32::from_be_bytes([data[8 + L1], data[9 + L1], data[10 + L1], data[11 + L1]]);
+        let second = L2 != 255 && L2 != 0;
+        let o2 = 12 + L1;
+        let crc2_ok = !second || crc_of(o2 + 8, L2) == u32::from_be_bytes([data[o2 + 8 + L2], data[o2 + 9 + L2], data[o2 + 10 + L2], data[o2 + 11 + L2]]);
+        let total = L1 + if second { L2 } else { 0 };
+        if crc1_ok && crc2_ok {
+            assert!(ok == (total >= 6), "a run of IDAT chunks with correct checksums is accepted exactly when it can hold zlib header + Adler-32");
+        } else {
+            assert!(!ok, "a chunk with a wrong checksum was accepted");
+        }
+    }
     if let Ok((idat, payload)) = &r {
         assert!(idat.total_chunk_length >= 12 && idat.total_chunk_length <= n, "total_chunk_length outside the input");
         let mut i = 0;
@@ -118,4 +137,25 @@ cheap_crc! {
 kproof! {
     /// K01e-crc: one chunk with the real (bit-serial) CRC-32
     fn k01e_idat_real_crc() { { let ok = idat_shape::<6, 255, 0>(); kani::cover!(ok, "accepted"); } }
+}
+
+cheap_crc! {
+    /// K13c: recreate_idat writes the same bytes whether the destination accepts everything at once or one byte
+    /// per call (partial writes), and a destination error surfaces as Err
+    fn k13c_recreate_idat_partial_writes() {
+        use crate::preflate_container::verif_harness::FragWrite;
+        let payload: [u8; 3] = kani::any();
+        let idat = IdatContents { chunk_sizes: vec![5, 4], zlib_header: kani::any(), total_chunk_length: 0, addler32: kani::any() };
+        let mut whole: Vec<u8> = Vec::with_capacity(48);
+        recreate_idat(&idat, &payload[..], &mut whole).unwrap();
+        assert!(whole.len() == 12 + 5 + 12 + 4);
+        let mut dst = FragWrite { out: [0; crate::preflate_container::verif_harness::FR_N], n: 0, fail_at: 99, step: 1, failed: false };
+        let r = recreate_idat(&idat, &payload[..], &mut dst);
+        assert!(r.is_ok());
+        assert!(dst.n == whole.len(), "output length depends on how the destination accepts writes");
+        let mut i = 0;
+        while i < 33 { assert!(dst.out[i] == whole[i], "output depends on how the destination accepts writes"); i += 1; }
+        kani::cover!(true, "reached");
+        core::mem::forget(whole); core::mem::forget(idat);
+    }
 }
